@@ -82,7 +82,7 @@ func Load(repoDir string, overlay map[string][]byte, goos, goarch string, patter
 		}
 		return l, fmt.Errorf("type errors: %s", strings.Join(l.TypeErrs[:n], "; "))
 	}
-	prog, ssaPkgs := ssautil.AllPackages(pkgs, ssa.BareInits)
+	prog, ssaPkgs := ssautil.AllPackages(pkgs, ssa.BareInits|ssa.InstantiateGenerics)
 	prog.Build()
 	l.Prog = prog
 	l.SSA = ssaPkgs
